@@ -131,6 +131,7 @@ class Inliner:
         self.done: set[str] = set()
         self.stack: list[str] = []
         self.stats = {"expression": 0, "statement": 0, "callers": 0}
+        self.sites: dict[str, int] = {}
 
     # ------------------------------------------------------------------ resolution
     def _helper_for(self, fi: "FuncInfo", call: ast.Call) -> "FuncInfo | None":
@@ -298,6 +299,7 @@ class Inliner:
                     if not hasattr(sub, "_xsa_origin"):
                         sub._xsa_origin = h.qual  # type: ignore[attr-defined]
                 inl.stats["expression"] += 1
+                inl.sites[h.qual] = inl.sites.get(h.qual, 0) + 1
                 return ast.copy_location(new, c)
 
         return T().visit(node)
@@ -402,6 +404,7 @@ class Inliner:
                     st.test = repl  # type: ignore[union-attr]
             out.append(st)
         self.stats["statement"] += 1
+        self.sites[h.qual] = self.sites.get(h.qual, 0) + 1
         return out
 
     def _rewrite_block(self, fi: "FuncInfo", body: list[ast.stmt], depth: int) -> list[ast.stmt]:
@@ -489,6 +492,104 @@ class _IfExpToIf(ast.NodeTransformer):
         return node
 
 
+def unroll_display_loops(fn: ast.AST) -> int:
+    """``for x in (a, b, c): body`` (the display written in place, or named by a local that is used for nothing else) becomes
+    ``x = a; body; x = b; body; x = c; body``: a short fixed sequence written as a loop over a literal and the same sequence written out are
+    one and the same to every rule.  Only loops without break / continue / else, a plain name as target and at most 10 items."""
+    count = 0
+    uses: dict[str, int] = {}
+    defs: dict[str, list[ast.Assign]] = {}
+    for n in _walk_own(fn):
+        if isinstance(n, ast.Name):
+            if isinstance(n.ctx, ast.Load):
+                uses[n.id] = uses.get(n.id, 0) + 1
+            else:
+                defs.setdefault(n.id, [])
+        if isinstance(n, ast.Assign) and len(n.targets) == 1 and isinstance(n.targets[0], ast.Name):
+            defs.setdefault(n.targets[0].id, []).append(n)
+    stores_n: dict[str, int] = {}
+    for n in _walk_own(fn):
+        if isinstance(n, ast.Name) and isinstance(n.ctx, (ast.Store, ast.Del)):
+            stores_n[n.id] = stores_n.get(n.id, 0) + 1
+
+    def display_of(it: ast.expr) -> tuple[ast.expr | None, ast.Assign | None]:
+        if isinstance(it, (ast.Tuple, ast.List)):
+            return it, None
+        if isinstance(it, ast.Name) and uses.get(it.id, 0) == 1 and stores_n.get(it.id, 0) == 1 and len(defs.get(it.id, [])) == 1 and isinstance(defs[it.id][0].value, (ast.Tuple, ast.List)):
+            return defs[it.id][0].value, defs[it.id][0]
+        return None, None
+
+    def process(body: list[ast.stmt]) -> list[ast.stmt]:
+        nonlocal count
+        out: list[ast.stmt] = []
+        drop: set[int] = set()
+        for st in body:
+            for field in ("body", "orelse", "finalbody"):
+                sub = getattr(st, field, None)
+                if isinstance(sub, list) and sub and isinstance(sub[0], ast.stmt) and not isinstance(st, (ast.FunctionDef, ast.AsyncFunctionDef, ast.ClassDef)):
+                    setattr(st, field, process(sub))
+            for h in getattr(st, "handlers", []) or []:
+                h.body = process(h.body)
+            if isinstance(st, ast.For) and isinstance(st.target, ast.Name) and not st.orelse:
+                disp, named = display_of(st.iter)
+                if disp is not None and 0 < len(disp.elts) <= 10 and not any(isinstance(e, ast.Starred) for e in disp.elts) and len(st.body) * len(disp.elts) <= 80 \
+                        and not any(isinstance(x, (ast.Break, ast.Continue, ast.Yield, ast.YieldFrom, ast.FunctionDef, ast.Lambda)) for b in st.body for x in ast.walk(b)) \
+                        and (named is None or named in body):
+                    if named is not None:
+                        drop.add(id(named))
+                    for e in disp.elts:
+                        a = ast.Assign(targets=[ast.Name(id=st.target.id, ctx=ast.Store())], value=e, type_comment=None)
+                        ast.copy_location(a, st)
+                        ast.copy_location(a.targets[0], st)
+                        a._xsa_unrolled = True  # type: ignore[attr-defined]
+                        out.append(a)
+                        out.extend(copy.deepcopy(st.body))
+                    count += 1
+                    continue
+            out.append(st)
+        return [s_ for s_ in out if id(s_) not in drop]
+
+    fn.body = process(fn.body)
+    return count
+
+
+class _YieldFromDisplay(ast.NodeTransformer):
+    """``yield from (E for t in it if c)`` (also a list comprehension) becomes the equivalent for-loop of yields, and ``yield from (a, b)``
+    / ``[a, b]`` becomes the yields themselves: a generator written either way is one and the same to the event-grammar rules."""
+
+    def __init__(self) -> None:
+        self.count = 0
+
+    def visit_FunctionDef(self, node):
+        self.generic_visit(node)
+        return node
+
+    def visit_Lambda(self, node):
+        return node
+
+    def visit_Expr(self, st: ast.Expr):
+        v = st.value
+        if not isinstance(v, ast.YieldFrom):
+            return st
+        src = v.value
+        if isinstance(src, (ast.GeneratorExp, ast.ListComp)) and not any(g.is_async for g in src.generators):
+            body: list[ast.stmt] = [ast.Expr(value=ast.Yield(value=src.elt))]
+            for gen in reversed(src.generators):
+                for cond in reversed(gen.ifs):
+                    body = [ast.If(test=cond, body=body, orelse=[])]
+                body = [ast.For(target=gen.target, iter=gen.iter, body=body, orelse=[], type_comment=None)]
+            self.count += 1
+            out = body[0]
+            for n in ast.walk(out):
+                if not hasattr(n, "lineno"):
+                    ast.copy_location(n, st)
+            return ast.copy_location(out, st)
+        if isinstance(src, (ast.Tuple, ast.List)) and not any(isinstance(e, ast.Starred) for e in src.elts):
+            self.count += 1
+            return [ast.copy_location(ast.Expr(value=ast.copy_location(ast.Yield(value=e), st)), st) for e in src.elts] or [ast.copy_location(ast.Pass(), st)]
+        return st
+
+
 class _MatchToIf(ast.NodeTransformer):
     """``match x: case A: ... case B | C: ... case _: ...`` over value / singleton / class patterns becomes the equivalent
     if / elif / else chain (other pattern kinds are left alone), so that both spellings of a dispatch are one to every rule."""
@@ -537,9 +638,13 @@ class _MatchToIf(ast.NodeTransformer):
             if t is None:
                 return node if not pre else node  # unsupported pattern: keep the match statement
             if case.guard is not None:
+                guard = case.guard
                 if bind:
-                    return node
-                t = case.guard if t is True else ast.BoolOp(op=ast.And(), values=[t, case.guard])
+                    # `case x if cond(x)`: the capture is the subject itself
+                    if any(isinstance(n_, ast.NamedExpr) for n_ in ast.walk(guard)):
+                        return node
+                    guard = _Subst({pat.name: copy.deepcopy(subj)}).visit(copy.deepcopy(guard))
+                t = guard if t is True else ast.BoolOp(op=ast.And(), values=[t, guard])
             arms.append((t, bind + case.body))
         self.count += 1
         orelse: list[ast.stmt] = []
@@ -712,19 +817,21 @@ def _apply(transformer: ast.NodeTransformer, body: list[ast.stmt]) -> list[ast.s
 
 
 def normalize_conditionals(repo: "Repo") -> int:
-    m, w, t, u = _MatchToIf(), _HoistWalrus(), _IfExpToIf(), _SplitTupleAssign()
+    m, w, t, u, y = _MatchToIf(), _HoistWalrus(), _IfExpToIf(), _SplitTupleAssign(), _YieldFromDisplay()
     extra = 0
     for fi in repo.functions.values():
-        before = (m.count, w.count, t.count, u.count)
+        before = (m.count, w.count, t.count, u.count, y.count)
+        fi.node.body = _apply(y, fi.node.body)
         fi.node.body = _apply(m, fi.node.body)
         fi.node.body = _apply(w, fi.node.body)
         fi.node.body = _apply(u, fi.node.body)
         c = inline_condition_temps(fi.node)
+        c += unroll_display_loops(fi.node)
         fi.node.body = _apply(t, fi.node.body)
-        if (m.count, w.count, t.count, u.count) != before or c:
+        if (m.count, w.count, t.count, u.count, y.count) != before or c:
             ast.fix_missing_locations(fi.node)
         extra += c
-    return m.count + w.count + t.count + u.count + extra
+    return m.count + w.count + t.count + u.count + y.count + extra
 
 
 def inline_private_helpers(repo: "Repo") -> dict:
@@ -732,7 +839,55 @@ def inline_private_helpers(repo: "Repo") -> dict:
     inl = Inliner(repo)
     inl.run()
     inl.stats["conditional_expressions_split"] = n
+    inl.stats["absorbed"] = _drop_absorbed(repo, inl.sites)
     return inl.stats
+
+
+def _drop_absorbed(repo: "Repo", sites: dict[str, int]) -> list[str]:
+    """A helper that does not exist in the pinned tree and whose every use was inlined is nothing but a part of its callers: it is taken
+    out of the model, so that "who may do X" scans see the operation once - in the caller - and not a second time in the helper."""
+    known = known_functions()
+    cands = {q: repo.functions[q] for q in sites if q not in known and q in repo.functions}
+    if not cands:
+        return []
+    by_name: dict[str, list[str]] = {}
+    for q, h in cands.items():
+        by_name.setdefault(h.name, []).append(q)
+    used: set[str] = set()
+    for mod in repo.modules.values():
+        skip = {id(h.node) for h in cands.values() if h.module is mod}
+
+        def walk(node: ast.AST):
+            for ch in ast.iter_child_nodes(node):
+                if id(ch) in skip:
+                    continue
+                if isinstance(ch, ast.Attribute) and ch.attr in by_name:
+                    used.add(ch.attr)
+                elif isinstance(ch, ast.Name) and ch.id in by_name and isinstance(ch.ctx, ast.Load):
+                    used.add(ch.id)
+                elif isinstance(ch, ast.Constant) and isinstance(ch.value, str) and ch.value in by_name:
+                    used.add(ch.value)  # getattr(self, "helper")
+                walk(ch)
+
+        walk(mod.tree)
+    gone = []
+    for q, h in cands.items():
+        if h.name in used:
+            continue
+        # a method that overrides / is overridden is part of an interface, not a private piece of its caller
+        if h.cls is not None and (any(h.name in c.methods for c in h.cls.mro[1:]) or any(h.name in c.methods for c in h.cls.all_subclasses())):
+            continue
+        body = h.cls.node.body if h.cls is not None else h.module.tree.body
+        if h.node in body:
+            body.remove(h.node)
+        repo.functions.pop(q, None)
+        if h.cls is not None:
+            h.cls.methods.pop(h.name, None)
+        lst = repo.methods_by_name.get(h.name)
+        if lst and h in lst:
+            lst.remove(h)
+        gone.append(q)
+    return sorted(gone)
 
 
 def origin(repo: "Repo", fi: "FuncInfo", node: ast.AST) -> "FuncInfo":
